@@ -769,9 +769,11 @@ func (vc *VC) binopVal(fx *fexec, st *State, op token.Token, a, b Val, rt types.
 			case token.GEQ:
 				return Val{Ty: rt, T: ge(a.T, b.T)}
 			case token.ADD:
-				r := vc.fresh("concat", SReal)
+				// order abstraction: concatenation is an uninterpreted function of its operands
+				vc.declUF("str.cat", "(Real Real) Real")
+				r := vc.define(name, app(SReal, "str.cat", a.T, b.T))
 				vc.assert(app(SBool, ">=", r, Term{"0.0", SReal}))
-				vc.note("string concatenation abstracted to a fresh string (order abstraction)")
+				vc.note("string concatenation abstracted to an uninterpreted function (order abstraction of strings)")
 				return Val{Ty: rt, T: r}
 			}
 		}
